@@ -9,6 +9,7 @@ require (
 	github.com/anishathalye/porcupine v1.3.0
 	github.com/miekg/dns v1.1.62
 	github.com/quic-go/quic-go v0.48.2
+	golang.org/x/crypto v0.30.0
 	golang.org/x/net v0.32.0
 )
 
@@ -38,7 +39,6 @@ require (
 	github.com/prometheus/procfs v0.15.1 // indirect
 	github.com/quic-go/qpack v0.5.1 // indirect
 	github.com/stretchr/testify v1.9.0 // indirect
-	golang.org/x/crypto v0.30.0 // indirect
 	golang.org/x/exp v0.0.0-20241204233417-43b7b7cde48d // indirect
 	golang.org/x/sync v0.10.0 // indirect
 	golang.org/x/sys v0.28.0 // indirect
